@@ -203,7 +203,7 @@ def classify_reject(rj):
     why = rj['why']
     t = rj.get('trace') or {}
     k = why[0]
-    if k in ('table', 'verdict', 'tree', 'threw', 'partial-line'):
+    if k in ('table', 'verdict', 'tree', 'threw', 'partial-line', 'context-mutations'):
         return k
     if k == 'extra-events':
         import traces as tl
@@ -225,7 +225,7 @@ def classify_reject(rj):
             return 'oob'
         if kinds & {'lexcall', 'lexcall_at_end'}:
             return 'lexcall'
-        if kinds & {'tval', 'call', 'dcall', 'ilist'}:
+        if kinds & {'tval', 'call', 'dcall', 'ccall', 'ilist'}:
             return 'functor'
         if kinds & {'synerr', 'unexp'}:
             return 'report'
@@ -245,7 +245,7 @@ def trace_violation(e, rj, cls):
         'summary': {'grammar': e.gid, 'rules': ['%s -> %s%s' % (l, ' '.join(r) or 'eps', ' [%d]' % p if p else '') for (l, r, p) in e.g.rules],
                     'input': bytes(t['bytes']).decode('latin-1'), 'options': {'verbose': t['verbose'], 'ws': t['ws'], 'nl': t['nl'], 'stream': t['stream']},
                     'class': cls, 'spec_expected': rj['why'], 'real_event': evs[pos - 1] if 0 < pos <= len(evs) else None, 'real_ok': t['ok']},
-        'kind': 'parser', 'gname': e.g.name, 'mode': e.mode, 'gid': e.gid, 'dflt': list(getattr(e, 'dflt', ())), 'lexterms': getattr(e, 'lexterms', None), 'clex': getattr(e, 'clex', False),
+        'kind': 'parser', 'gname': e.g.name, 'mode': e.mode, 'gid': e.gid, 'dflt': list(getattr(e, 'dflt', ())), 'lexterms': getattr(e, 'lexterms', None), 'clex': getattr(e, 'clex', False), 'ctxr': list(getattr(e, 'ctx', ())), 'ctx': t.get('ctx', 0),
         'grammar': {'nts': e.g.nts, 'ts': e.g.ts, 'root': e.g.root, 'rules': e.g.rules, 'tprec': e.g.tprec, 'tassoc': e.g.tassoc},
         'bytes': t['bytes'], 'ws': t['ws'], 'nl': t['nl'], 'verbose': t['verbose'], 'stream': t['stream'], 'buf': t['buf']}
 
@@ -1552,6 +1552,63 @@ def check_C18(tier, seed):
     return out
 
 
+# ======================================================================================= C13
+def check_C13(tier, seed):
+    out = Outcome()
+    rng = random.Random(seed)
+    cat = {g.name: g for g in catalogue()}
+    names = ['left_rec', 'paren_list', 'expr_strat', 'nullable_prefix', 'expr_amb', 'err_suite', 'two_lists']
+    if tier != 'quick':
+        names += ['closure_memo', 'lr1_not_lalr', 'unit_chain', 'err_stmt', 'right_rec_empty', 'mutual_rec', 'dangling_else', 'opt_tail']
+    entries = []
+    for n in names:
+        g = cat[n]
+        k = len(g.rules)
+        variants = [set(range(k)), set(range(0, k, 2)), set(range(1, k, 2)), set()]
+        if tier != 'quick':
+            variants.append({i for i in range(k) if rng.random() < 0.5})
+        for vi, cs in enumerate(variants):
+            entries.append(pipeline.gen_entry(g, gid='%s@ctx%d' % (n, vi), ctx=sorted(cs)))
+    L = 4 if tier == 'quick' else 5
+    for e in entries:
+        ins = all_inputs(e.g, L if len(e.g.ts) <= 3 else L - 1, 300 if tier == 'quick' else 2000)
+        sents = gengram.sentences(e.g, rng, 5 if tier == 'quick' else 25, max_len=40)
+        cats = (1, 2, 3, 4, 5) if e.ctx else (0, 1, 2, 3, 4, 5)
+        for c in cats:
+            pipeline.add_jobs(e, ins if c in (1, 2) else ins[::3], verbose=(c == 1), ctx=c, tag='c%d_' % c)
+            pipeline.add_jobs(e, sents, verbose=False, ctx=c, tag='s%d_' % c)
+    res, work = prun.run(entries, 'C13', design_L=None, do_product=False, tlc_procs=4 if tier == 'quick' else 8, tlc_workers=4 if tier == 'quick' else 2)
+    domain = {e.gid for e in entries}
+    judge_traces(out, entries, res, {'functor', 'context-mutations', 'tree', 'verdict', 'extra:ccall', 'extra:call', 'threw'}, domain)
+    # grammars that ignore the context: parse() and context_parse() give the same result
+    ncmp = 0
+    for e in entries:
+        if e.ctx:
+            continue
+        byin = collections.defaultdict(dict)
+        for t in e.traces:
+            byin[tuple(t['bytes'])][t['ctx']] = t
+        for b, d in byin.items():
+            ref = d.get(0)
+            if not ref:
+                continue
+            for c, t in d.items():
+                ncmp += 1
+                if t['ok'] != ref['ok'] or json.dumps(t['tree']) != json.dumps(ref['tree']):
+                    out.violations.append({'summary': {'grammar': e.gid, 'input': bytes(b).decode('latin-1'), 'class': 'context_parse differs from parse although no functor takes the context', 'context_category': c},
+                                           'kind': 'parser', 'gname': e.g.name, 'mode': e.mode, 'gid': e.gid, 'dflt': [], 'lexterms': None, 'clex': False,
+                                           'grammar': {'nts': e.g.nts, 'ts': e.g.ts, 'root': e.g.root, 'rules': e.g.rules, 'tprec': e.g.tprec, 'tassoc': e.g.tassoc},
+                                           'bytes': list(b), 'ws': 1, 'nl': 1, 'verbose': 0, 'stream': 0, 'buf': 0})
+    out.violations = out.violations[:12]
+    out.coverage = base_coverage(res, {
+        'grammars': len(entries), 'contextual_calls_validated': res.event_kinds.get('ccall', 0), 'plain_calls_validated': res.event_kinds.get('call', 0),
+        'context_categories': ['none (parse)', 'non-const lvalue', 'const lvalue', 'rvalue', 'move-only lvalue', 'move-only rvalue'],
+        'parse_vs_context_parse_comparisons': ncmp, 'bounds': {'L_all_inputs': L},
+        'samples': sample_traces([e for e in entries if e.ctx], 3), 'exhaustive': False})
+    out.assumptions = std_assumptions() + ['context identity = address comparison with the caller\'s object; constness from the deduced parameter type; caller-visible mutation counter read after the call']
+    return out
+
+
 # ======================================================================================= replay
 def replay(pid, path):
     v = json.load(open(path))
@@ -1599,10 +1656,10 @@ def replay(pid, path):
         elif v.get('lexterms'):
             e = pipeline.lex_entry(v['gname'], [tuple(t) for t in v['lexterms']])
         elif v['mode'] == 'gen':
-            e = pipeline.gen_entry(g, dflt=v.get('dflt', ()))
+            e = pipeline.gen_entry(g, dflt=v.get('dflt', ()), ctx=v.get('ctxr', ()))
         else:
             e = pipeline.host_entry(g, int(v['mode'][4:]))
-        e.jobs = [('%s:replay' % e.gid, int(v.get('buf', 0)), int(v.get('stream', 0)), int(v.get('verbose', 1)), int(v['ws']), int(v['nl']), list(v['bytes']))]
+        e.jobs = [('%s:replay' % e.gid, int(v.get('buf', 0)), int(v.get('stream', 0)), int(v.get('verbose', 1)), int(v['ws']), int(v['nl']), list(v['bytes']), int(v.get('ctx', 0)))]
         res, work = prun.run([e], 'replay', do_product=True)
         rj = res.rejects.get(e.gid, [])
         verd, _ = prun.spec_verdicts([e], [(e.gid, tuple(v['bytes']), bool(v['ws']), bool(v['nl']))], 'replayv')
